@@ -26,6 +26,10 @@ Decided clauses:
   R8.7 Argon2's variable-length hash H' (blake2b_long) uses a single BLAKE2b call exactly when one call can produce the output:
        the arm that initialises the hash with the caller's outlen holds outlen <= crypto_generichash_blake2b_BYTES_MAX, the
        chained arm (hash initialised with the constant BYTES_MAX) holds outlen >= BYTES_MAX + 1 (RFC 9106, 3.3: T <= 64).
+  R8.8 both scrypt cores hand the same things to PBKDF2: escrypt_kdf_sse and escrypt_kdf_nosse call escrypt_PBKDF2_SHA256 twice, with
+       (passwd, passwdlen, salt, saltlen, 1, B, 128 * r * p) and (passwd, passwdlen, B, 128 * r * p, 1, buf, buflen): the B length is
+       the same linear product in both calls and in both backends (E7; the portable core is only selected without SSE2 or before
+       sodium_init(), so a slip there is invisible on the test machine).
 NOT decided: Argon2 / scrypt output values, string grammar strictness.
 """
 from .. import terms as T
@@ -387,6 +391,7 @@ def run(ctx, chk):
                    loc=fn.loc(p.end_iid), path=None if ok else p, key="R8.2w %s" % name)
     alphabet_rule(prog, chk)
     hprime_rule(prog, chk)
+    scrypt_pbkdf2_rule(prog, chk)
 
 
 def _table_bytes(prog, fn, g):
@@ -546,3 +551,50 @@ def hprime_rule(prog, chk):
             chk.ob("R8.7", fn, "H' initialises BLAKE2b with outlen or with BYTES_MAX", False, loc=fn.loc(e.iid), path=p,
                    key="R8.7 blake2b_long init-length")
     chk.floor("R8.7", "paths of blake2b_long through a hash initialisation", n, 2)
+
+
+def scrypt_pbkdf2_rule(prog, chk):
+    sigs = {}
+    for name in ("escrypt_kdf_nosse", "escrypt_kdf_sse"):
+        fn = prog.fn(name)
+        if fn is None:
+            continue
+        roles = {i: q["name"] for i, q in enumerate(fn.params)}
+        out = set()
+        for p in cm.paths(prog, fn):
+            if p.kind != "ret" or not p.may_return_zero():
+                continue
+            calls = [e for e in p.calls("escrypt_PBKDF2_SHA256")]
+            if not calls:
+                continue
+            sh = cm.Shaper(prog, p, roles)
+            sig = []
+            for e in calls:
+                row = []
+                for k, a in enumerate(e.args):
+                    if k in (1, 3, 4, 6):          # lengths / iteration count: compare as role-normalised values
+                        row.append(str(sh.shape(a)))
+                    else:                           # pointers: which object
+                        r = T.root(a)
+                        row.append(roles.get(r[1], "P%d" % r[1]) if r[0] == "arg" else ("B" if r[0] in ("load", "call") else str(r[0])))
+                sig.append(tuple(row))
+            out.add(tuple(sig))
+        sigs[name] = (fn, out)
+    if len(sigs) < 2:
+        if chk.relaxed or len(sigs) == 1:
+            return
+        raise AnalysisBroken("R8.8: scrypt cores not found")
+    (fa, a), (fb, b) = sigs["escrypt_kdf_nosse"], sigs["escrypt_kdf_sse"]
+    ok = a == b and bool(a)
+    d = sorted(a - b) or sorted(b - a)
+    chk.ob("R8.8", fa, "escrypt_kdf_nosse and escrypt_kdf_sse hand the same (role-normalised) arguments to their two PBKDF2 calls", ok,
+           detail="" if ok else "only in %s: %s" % ("the portable core" if a - b else "the SSE core", str(d[0])[:500]),
+           key="R8.8 scrypt PBKDF2 hand-overs")
+    # and inside one core the B length of the first call is the B length of the second
+    for fn, sg in (fa, a), (fb, b):
+        for seq in sg:
+            if len(seq) == 2:
+                ok2 = seq[0][6] == seq[1][3]
+                chk.ob("R8.8", fn, "the block buffer B has the same length when it is filled and when it keys the final PBKDF2", ok2,
+                       detail="" if ok2 else "filled with %s bytes, read as %s bytes" % (seq[0][6], seq[1][3]), key="R8.8 %s B length" % fn.sname)
+    chk.floor("R8.8", "PBKDF2 hand-over signatures of the scrypt cores", len(a) + len(b), 2)
